@@ -219,11 +219,12 @@ func (e *regEnv) sync(t, out int, settle string) (release int, handed []int, qui
 	}
 	mem, known := e.member[t]
 	if !known {
-		// an unknown (or broken and gone) table: refusal probe
+		// an unknown (or broken and gone) table: refusal probe - also with a number of eliminations, which a table
+		// that does not exist cannot have had (nobody is eliminated in the environment)
 		var rel int
 		var np []string
-		err := e.guard(func() (err error) { rel, np, err = e.r.SyncState(tname(t), 0); return })
-		e.emit("main", "SyncState", t, 0, nil, es(err), rel, pnums(np), settle)
+		err := e.guard(func() (err error) { rel, np, err = e.r.SyncState(tname(t), out); return })
+		e.emit("main", "SyncState", t, out, nil, es(err), rel, pnums(np), settle)
 		return 0, nil, false
 	}
 	if out > len(mem) {
@@ -244,6 +245,31 @@ func (e *regEnv) sync(t, out int, settle string) (release int, handed []int, qui
 	}
 	e.emit("main", "SyncState", t, out, nil, es(err), rel, pnums(np), settle)
 	return rel, pnums(np), quiet
+}
+
+// syncStray: a call naming a table the regulator no longer knows - one that was told to break, whether or not it has
+// handed its players back yet.  Nothing happens in the environment; the call must be refused without any effect.
+func (e *regEnv) syncStray(t, out int) {
+	if e.dead || e.r.GetTable(tname(t)) != nil {
+		return
+	}
+	e.script.Ops = append(e.script.Ops, ROp{Op: "SyncStray", T: t, N: out})
+	var rel int
+	var np []string
+	err := e.guard(func() (err error) { rel, np, err = e.r.SyncState(tname(t), out); return })
+	e.emit("main", "SyncState", t, out, nil, es(err), rel, pnums(np), "")
+}
+
+// strayTables: tables told to break (instruction outstanding or carried out)
+func (e *regEnv) strayTables() []int {
+	ids := append([]int{}, e.gone...)
+	for t := range e.pend {
+		if e.r.GetTable(tname(t)) == nil {
+			ids = append(ids, t)
+		}
+	}
+	sort.Ints(ids)
+	return ids
 }
 
 func (e *regEnv) release(t int, settle string) {
@@ -370,7 +396,11 @@ func randomTournament(o *potsOut, run int, r *rand.Rand, steps int) *regEnv {
 			}
 			e.setStatus(st)
 		case k < 34:
-			e.sync(e.nextTbl+1+r.Intn(3), 0, "") // unknown table
+			if st := e.strayTables(); len(st) > 0 && r.Intn(2) == 0 {
+				e.syncStray(st[r.Intn(len(st))], r.Intn(3)) // a table that was told to break reports again
+			} else {
+				e.sync(e.nextTbl+1+r.Intn(3), r.Intn(3)/2, "") // unknown table
+			}
 		case k < 70:
 			ids := e.liveTables()
 			if len(ids) == 0 {
@@ -463,6 +493,8 @@ func replayReg(o *potsOut, s RScript) *regEnv {
 				continue
 			}
 			e.release(op.T, "")
+		case "SyncStray":
+			e.syncStray(op.T, op.N)
 		case "Settle":
 			e.settle(rand.New(rand.NewSource(int64(op.N))), 14)
 		}
